@@ -302,6 +302,13 @@ def gen_sets(rng, maxn, kind):
         comp = [[rng.uniform(-5, 5) for _ in range(dim)] for _ in range(rng.randint(1, maxn))]
         return ref, comp, None
     ref = [[dy(rng) for _ in range(dim)] for _ in range(nr)]
+    if kind == "offset":
+        # coordinates of large magnitude, distances small against it (1e6 with shifts of 2^-10 .. 1): the distance of two
+        # points does not depend on where the origin is
+        base = float(rng.choice([2 ** 20, 2 ** 17, -2 ** 20]))
+        ref = [[base + x for x in r] for r in ref]
+        comp = [[x + rng.choice([0.0, 2.0 ** -10, 2.0 ** -7, 0.125, 1.0]) for x in rng.choice(ref)] for _ in range(rng.randint(1, maxn))]
+        return ref, comp, None
     if kind in ("integer", "integer-array"):
         # the computed points have integer coordinates only (Python ints / an integer ndarray): distances to a real-valued
         # reference set are not integers
@@ -435,7 +442,7 @@ def run(ctx):
     n_sets = 2500 if ctx.quick else 40000
     sets = []
     for k in range(n_sets):
-        kind = ["dyadic", "dyadic", "shift", "subset", "random", "integer"][k % 6]
+        kind = ["dyadic", "dyadic", "shift", "subset", "random", "integer", "offset"][k % 7]
         sets.append((kind,) + gen_sets(rng, 8 if ctx.quick else 20, kind))
     lines = []
     for kind, ref, comp, d in sets:
